@@ -1855,3 +1855,127 @@ func r087(c *Ctx, r *R) {
 	})
 	_ = n
 }
+
+func init() {
+	register(&Rule{ID: "R13.9", Props: []string{"C13"}, Floor: 3, Title: "the adder's pin helper keeps the block destinations unless the pin is for everyone (factor below zero), hands exactly that pin to Cluster.Pin; in the indirect shard DAG no test inside the leaf loop is made constant by the loop bound (the last, partial leaf is built)", Run: r139})
+}
+
+func r139(c *Ctx, r *R) {
+	f := c.fn(r, "adder", "Pin")
+	if f != nil {
+		n := 0
+		instrs(f, func(i ssa.Instruction) {
+			st, ok := i.(*ssa.Store)
+			if !ok {
+				return
+			}
+			fa, ok := st.Addr.(*ssa.FieldAddr)
+			if !ok || fieldOfAddr(fa).Name() != "Allocations" {
+				return
+			}
+			n++
+			okGuard := false
+			why := "unconditionally"
+			for _, g := range guardsOf(st.Block()) {
+				if gCall(g, true, "IsPinEverywhere") {
+					okGuard = true
+				}
+				bo, isB := g.Cond.(*ssa.BinOp)
+				if !isB {
+					continue
+				}
+				fl, _ := fieldLoad(bo.X)
+				k, isK := constInt(bo.Y)
+				if fl == nil || !strings.HasPrefix(fl.Name(), "ReplicationFactor") || !isK {
+					continue
+				}
+				op := bo.Op
+				if !g.Branch { // negate
+					switch op {
+					case token.LSS:
+						op = token.GEQ
+					case token.LEQ:
+						op = token.GTR
+					case token.GEQ:
+						op = token.LSS
+					case token.GTR:
+						op = token.LEQ
+					case token.EQL:
+						op = token.NEQ
+					case token.NEQ:
+						op = token.EQL
+					}
+				}
+				switch {
+				case op == token.LSS && k == 0, op == token.LEQ && k == -1, op == token.EQL && k == -1:
+					okGuard = true
+				default:
+					why = fmt.Sprintf("under %s %s %d", fl.Name(), op, k)
+				}
+			}
+			r.Check(okGuard, "adder.Pin:keeps-destinations", st.Pos(), "the allocations preset by the adder are dropped only for pin-everywhere pins (factor < 0)", "adder.Pin drops the block destinations "+why+": a pin with unset (0, 'use the default') or positive factors is re-allocated at pin time and can land on peers that never received the blocks")
+		})
+		// the pin handed on is the pin received
+		for _, s := range c.RPC {
+			if s.Fn == f && len(s.Targets) == 1 && s.Targets[0].Method == "Pin" {
+				a := callArgs(s.Call.Common())
+				pos := rpcArgPos[s.Kind]
+				arg := a[pos[1]+2]
+				if mi, ok := arg.(*ssa.MakeInterface); ok {
+					arg = mi.X
+				}
+				r.Check(paramIndex(f, arg) == 2, "adder.Pin:same-pin", s.Call.Pos(), "the pin given to the helper is the pin submitted", "adder.Pin submits something other than the pin it was given")
+			}
+		}
+		_ = n
+	}
+	// makeDAG: the loop over leaves
+	md := c.fn(r, "adder/sharding", "makeDAG")
+	if md == nil {
+		return
+	}
+	checked := 0
+	for _, h := range md.Blocks {
+		iff, ok := h.Instrs[len(h.Instrs)-1].(*ssa.If)
+		if !ok {
+			continue
+		}
+		isLoop := false
+		for _, p := range h.Preds {
+			if h.Dominates(p) {
+				isLoop = true
+			}
+		}
+		bo, okB := iff.Cond.(*ssa.BinOp)
+		if !isLoop || !okB {
+			continue
+		}
+		phi, okP := bo.X.(*ssa.Phi)
+		if !okP || phi.Block() != h {
+			continue
+		}
+		bound := bo.Y
+		if _, isK := constOf(bound); isK {
+			continue // the inner loop over MaxLinks
+		}
+		checked++
+		// comparisons of the counter with the bound inside the loop
+		for _, b := range md.Blocks {
+			if b == h || !inNaturalLoop(b, h) {
+				continue
+			}
+			for _, in := range b.Instrs {
+				c2, ok := in.(*ssa.BinOp)
+				if !ok || (c2.Op != token.EQL && c2.Op != token.NEQ) {
+					continue
+				}
+				if (c2.X == ssa.Value(phi) && c2.Y == bound) || (c2.Y == ssa.Value(phi) && c2.X == bound) {
+					r.Check(bo.Op != token.LSS, "makeDAG:last-leaf", c2.Pos(), "the leaf loop reaches the index its body treats as the last (partial) leaf", "the leaf loop stops before the index that its own body tests for as 'the last, partially filled leaf' (the test is constant under the loop bound): the trailing leaf of an indirect shard DAG is never built and its blocks are linked from no shard")
+				}
+			}
+		}
+	}
+	if checked == 0 {
+		r.Und("makeDAG:loop", md.Pos(), "the leaf loop of makeDAG was not recognised")
+	}
+}
